@@ -78,6 +78,10 @@ def sw_contract():
             mid = (P.get(k, 0) + P.get(k, 1)) / 2
             out.append(("%s_is_diagonal_projection_x" % name, lift(el[0]) == mid, "P"))
             out.append(("%s_is_diagonal_projection_y" % name, lift(el[1]) == mid, "P"))
+            # proved for an arbitrary k: continue with the (linear) spec form of the list
+            def repl(name=name, P=P, n=n):
+                st.env.set(name, SymSeq(n, lambda k: [(P.get(k, 0) + P.get(k, 1)) / 2, (P.get(k, 0) + P.get(k, 1)) / 2]))
+            out.append(("then", repl))
         return out
 
     return Contract(MOD, "sliced_wasserstein", make_args, ensures=ensures, definedness="P",
